@@ -44,7 +44,7 @@ F = [S + f for f in ("svt_system_resource_ctor", "svt_get_empty_object", "svt_po
                      "svt_muxing_queue_assignation", "svt_release_process")]
 META = {
     "engine": "E5 step scheduler (blocking calls split at their semaphore wait)",
-    "level_text": "Bounded model checking of the real EbSystemResourceManager.c under an explicit scheduler: the two blocking calls are split verbatim at their semaphore wait into register/take halves, every other API call is one step (a single critical section); the scheduler (a solver variable per step) runs any enabled step of a producer, 1-2 consumers or the shutdown thread for K steps -- all interleavings at blocking-point granularity, with 1-2 objects, reference counts 0..2, blocking and polling gets; monitors for exclusivity, no loss/duplication, posting order, lost wake-up at quiescence, return-to-pool exactly at the last release, shutdown wake-up, and write-after-publication.",
+    "level_text": "One query additionally splits svt_fifo_shutdown verbatim after its mutex release / semaphore post so that consumers run between the pieces of the shutdown. Bounded model checking of the real EbSystemResourceManager.c under an explicit scheduler: the two blocking calls are split verbatim at their semaphore wait into register/take halves, every other API call is one step (a single critical section); the scheduler (a solver variable per step) runs any enabled step of a producer, 1-2 consumers or the shutdown thread for K steps -- all interleavings at blocking-point granularity, with 1-2 objects, reference counts 0..2, blocking and polling gets; monitors for exclusivity, no loss/duplication, posting order, lost wake-up at quiescence, return-to-pool exactly at the last release, shutdown wake-up, and write-after-publication.",
     "level_note": "EbThreads.c is replaced by a model (held-flag mutex, counting semaphore). Critical sections are atomic steps: overlap of two critical sections that do not exclude each other (different mutexes) is outside, with the write-after-publication monitor as stand-in. Allocation failure is assumed away here (C16).",
     "technique": "CBMC bounded symbolic execution of the real SRM with a symbolic nested scheduler (thread choice and yield decisions are solver variables)",
     "assumptions": ["mutex/semaphore semantics as modelled in harness/common/threads_model.h", "constructor succeeds"],
